@@ -566,6 +566,68 @@ fn debug_slow(spec: &str) {
     });
 }
 
+/// One real Pool + Votor core, every order of blocks, certificates, votes and timeouts up to the
+/// depth bound: in every settled state every votable block of a correct leader has been voted for.
+fn run_obligations(report: &Report, tier: Tier) -> Value {
+    use crate::engine::{BfsLimits, Sys, bfs};
+    use crate::nodesys::{NodeAlphabet, NodeSys};
+    use crate::pooldrv::{Blk, CK, GENESIS};
+    use crate::poolsys::cert;
+    let x3 = std::sync::Arc::new(crate::common::make_epoch(&[10, 45, 45]));
+    let b = |slot: u64, idx: u8| Blk { slot, idx };
+    // window 1 went wrong before stabilisation: the block of slot 5 arrived, its parent never did, the
+    // window timed out. Window 2 has a correct leader building on the genesis block.
+    let stale = NodeAlphabet {
+        foreign: (1..=7).map(|s| cert(CK::Skip, s, 0, &[1], &[2])).collect(),
+        blocks: vec![(b(5, 0), b(4, 1)), (b(8, 0), GENESIS), (b(9, 0), b(8, 0)), (b(10, 0), b(9, 0))],
+        invalid: vec![],
+        first_shreds: vec![],
+        windows: vec![0, 4, 8],
+        forge: vec![],
+    };
+    let mut systems: Vec<NodeSys> = Vec::new();
+    {
+        let mut sys = NodeSys::new("stale-pending-block-then-correct-leader-window", x3.clone(), 0, stale.clone(), 0);
+        let nf = stale.foreign.len() as u16;
+        let timer4 = nf + stale.blocks.len() as u16 + 1;
+        // skip certificates of slots 1-3 (ParentReady for slot 4), the orphan block of slot 5, window 1 times out
+        // ... and two of the four skip certificates of window 1 are already in
+        sys.prefix = vec![0, 1, 2, nf, timer4, timer4, timer4, timer4, timer4, 3, 4];
+        systems.push(sys);
+        if tier == Tier::Thorough {
+            let mut sys = NodeSys::new("stale-pending-block-then-correct-leader-window-lag1", x3.clone(), 0, stale, 1);
+            sys.prefix = vec![0, 1, 2, nf, timer4, timer4, timer4, timer4, timer4, 3, 4];
+            systems.push(sys);
+        }
+    }
+    systems.push(NodeSys::new("slots1-2-parent-rule", x3.clone(), 0, crate::c05::alpha_slots12(), 0));
+    systems.push(NodeSys::new("window-boundary-3-4-5", x3.clone(), 0, crate::c05::alpha_boundary(), 0));
+    {
+        let alpha = crate::c05::alpha_handover();
+        let first_block = alpha.foreign.len() as u16;
+        let mut hs = NodeSys::new("handover-after-notarizing-window-0", x3.clone(), 0, alpha, 0);
+        hs.prefix = vec![first_block, first_block + 1, first_block + 2];
+        systems.push(hs);
+    }
+    let mut per = Vec::new();
+    for sys in systems.iter_mut() {
+        sys.crash_focus = Some("C02");
+        sys.obligations = true;
+        // the prefix must have produced the intended start state
+        let _ = sys.init();
+        let depth = if sys.name.starts_with("stale") { tier.pick(6, 9) } else { tier.pick(4, 7) };
+        let limits = BfsLimits::new(depth, tier.pick(300_000, 20_000_000), tier.pick(10, 150));
+        let st = bfs(&*sys, &sys.name, &limits, report);
+        println!("  obligations/{}: states={} transitions={} depth_completed={} outcomes={} capped={:?}", sys.name, st.states, st.transitions, st.depth_completed, st.distinct_outcomes, st.capped);
+        let mut j = st.to_json();
+        j["system"] = json!(sys.name);
+        j["lag"] = json!(sys.lag);
+        j["blocks"] = json!(sys.alpha.blocks.iter().map(|(b, p)| format!("(s{},b{})<-(s{},b{})", b.slot, b.idx, p.slot, p.idx)).collect::<Vec<_>>());
+        per.push(j);
+    }
+    json!(per)
+}
+
 pub fn run(tier: Tier) -> i32 {
     if let Ok(spec) = std::env::var("C02_LOSSY") {
         // debugging aid: C02_LOSSY=<n>,<total ms>: messages across a 2|n-2 partition are LOST for 3.2 s
@@ -588,7 +650,12 @@ pub fn run(tier: Tier) -> i32 {
         return 0;
     }
     let report = Report::new("C02", tier, "model_checking");
-    let (live, live_states, live_transitions, live_completions, live_traces) = run_liveness_prefixes(&report, tier);
+    // the four parts are independent; they run side by side (the explorations on two threads of
+    // their own, the whole-node runs through the rayon pool)
+    let report_ref = &report;
+    let cov = std::thread::scope(|scope| {
+    let bfs_part = scope.spawn(move || rayon::join(|| run_liveness_prefixes(report_ref, tier), || run_obligations(report_ref, tier)));
+    let deviation_part = scope.spawn(move || if crate::common::replay_req().is_some() { json!(null) } else { deviation_sweep(report_ref, tier) });
     let scs = if crate::common::replay_req().is_some() { Vec::new() } else { scenarios(tier) };
     let total_ms = tier.pick(12_000u64, 16_000);
     let samples = std::sync::Mutex::new(Samples::new(5));
@@ -605,8 +672,7 @@ pub fn run(tier: Tier) -> i32 {
             }
         }
     });
-    let mut all_samples = live_traces;
-    all_samples.extend(samples.into_inner().unwrap().items);
+    let mut all_samples = samples.into_inner().unwrap().items;
     // ---- Byzantine previous leader at the hand-over (n = 5, attacker 19 %): the next, correct
     // leader starts optimistically on a block the others never notarize and must switch parents
     let mut handover_runs = Vec::new();
@@ -647,7 +713,10 @@ pub fn run(tier: Tier) -> i32 {
             }
         }
     }
-    let deviation = if crate::common::replay_req().is_some() { json!(null) } else { deviation_sweep(&report, tier) };
+    let deviation = deviation_part.join().unwrap_or_else(|_| crate::common::machinery_failure("C02 deviation sweep thread panicked"));
+    let ((live, live_states, live_transitions, live_completions, live_traces), obligations) =
+        bfs_part.join().unwrap_or_else(|_| crate::common::machinery_failure("C02 exploration thread panicked"));
+    all_samples.splice(0..0, live_traces);
     let cov = json!({
         "states": live_states,
         "transitions": live_transitions,
@@ -662,11 +731,14 @@ pub fn run(tier: Tier) -> i32 {
         "virtual_ms_per_run": total_ms,
         "inconclusive": *inconclusive.lock().unwrap(),
         "liveness_from_explored_prefixes": live,
+        "single_node_vote_obligations": obligations,
         "whole_node_deviation_sweep": deviation,
         "whole_node_deviation_rule": "4 real nodes on a timely network; the default schedule delivers every packet after 1 ms, a deviation delays the k-th routed consensus packet of the run by one of the listed amounts; every k in the first half of the run (quick: every 23rd) x every amount is executed; the run must keep finalizing (within one window per 1.6 s of delay of the undisturbed run), no task may die, and a delay below DELTA must not get any slot skipped",
         "byzantine_previous_leader_handover_runs": handover_runs,
         "liveness_rule": "every state reached by the breadth-first exploration of schedule prefixes of 3 real node cores (real Votor + Pool each; Byzantine votes to single nodes, adversary-aggregated certificates, per-link FIFO deliveries incl. loop-back in every interleaving, blocks to single nodes, timeouts) is rebuilt and completed fairly (everything in flight delivered, held blocks repaired to the others, timeouts fired when nothing is in flight, Byzantine validator silent); on the completed world every slot of the window must be certified (skip or notarization/-fallback) or finalized at every node and the next window must have a ready parent",
         "samples": all_samples,
+    });
+    cov
     });
     report.finish(cov)
 }
